@@ -261,6 +261,9 @@ class Engine:
         if isinstance(node, ast.Constant):
             return C(node.value)
         t = self.static_term(fi.mod, node)
+        if isinstance(t, tuple) and len(t) == 4 and t[0] == "lit" and t[1] in ("dict", "list", "set") and t[3] is not None:
+            # a mutable default: one object, created when the function is defined, shared by all calls
+            t = ("lit", t[1], t[2], tuple(t[3]) + ("@default",))
         return t if t is not None else Fresh("default")
 
 
